@@ -325,7 +325,12 @@ class BuiltinMixin(CallMixin):
         pr = self.prover(st)
         lo = smt.smart_clamp(a[1], n, pr) if len(a) > 1 and a[1] is not None else z3.IntVal(0)
         hi = smt.smart_clamp(a[2], n, pr) if len(a) > 2 and a[2] is not None else None
-        w = s if hi is None else z3.SubSeq(s, 0, hi)
+        if hi is None:
+            w = s
+        else:
+            # name the searched window so that it can appear in quantifier patterns
+            w = smt.fresh("window", smt.Bytes)
+            st.assume(w == z3.SubSeq(s, 0, hi))
         r = smt.fresh("find", smt.I)
         lo = z3.simplify(lo)
         found = z3.And(r >= lo, smt.occ(w, p, r), smt.no_occ_range(w, p, lo, r))
@@ -429,6 +434,20 @@ class BuiltinMixin(CallMixin):
             return smt.no_occ_range(B(a[0]), B(a[1]), a[2], a[3] if len(a) > 3 else None)
         if name == "flat":
             return smt.flat(a[0])
+        if name in ("view_lo", "view_hi"):
+            v = args[0]
+            if not isinstance(v, View):
+                raise EngineError(f"{name}() of a non-view {v!r}")
+            return v.lo if name == "view_lo" else v.hi
+        if name == "view_of":
+            v, b = args[0], args[1]
+            if isinstance(b, View):
+                b = b.base
+            return z3.BoolVal(isinstance(v, View) and isinstance(b, Ref) and v.base == b)
+        if name == "Resync":
+            return smt.Resync(B(a[0]), a[1], B(a[2]))
+        if name == "rk":
+            return smt.rk(B(a[0]), a[1], B(a[2]))
         if name == "unit":
             return z3.Unit(B(a[0]) if ops.is_byteslike(a[0]) else a[0])
         if name == "empty_seq":
